@@ -346,11 +346,12 @@ func (s *Sim) runBody() {
 			} else if p.Shape == "starve" && s.chance(0.05) {
 				s.pickStallTarget()
 			}
-			d, ok := s.next(s.quietReset != nil)
+			d, ok := s.next(s.quietReset != nil || s.quietRoot != nil)
 			if !ok {
-				if s.quietReset != nil {
-					// the quiet window after a system reset has drained
+				if s.quietReset != nil || s.quietRoot != nil {
+					// the quiet window after a system reset (or a lone subscribe) has drained
 					s.quietReset = nil
+					s.quietRoot = nil
 					continue
 				}
 				break
@@ -366,6 +367,7 @@ func (s *Sim) runBody() {
 	}
 	s.stallLeft = 0
 	s.quietReset = nil
+	s.quietRoot = nil
 	s.finish()
 }
 
@@ -383,9 +385,27 @@ func (s *Sim) step(d Decision) bool {
 	if d.K != "run" && d.K != "dlv" && d.K != "ans" {
 		// an external action ends the quiet window after a system reset
 		s.quietReset = nil
+		s.quietRoot = nil
 	}
+	if d.K == "dlv" && strings.HasPrefix(d.A, "bag:") && !strings.HasPrefix(d.A, "bag:reply:") {
+		// so does another reset, or a token event, that was still on its way
+		s.quietReset = nil
+		s.quietRoot = nil
+	}
+	quietBefore := d.K == "cli" && s.Cfg.Gw.ReferenceThrottle > 0 && s.Cfg.P.fault("quietroot") && s.numParked() == 0 && s.allDelivered() && s.tr.bagEmpty()
 	s.record(d)
 	ok := s.execute(d)
+	if ok && quietBefore {
+		// a lone subscribe at a quiet moment: every get request that follows is
+		// made while following its references (C19, reference throttle)
+		for _, c := range s.Clients {
+			if c.Name == d.A && len(c.ReqL) > 0 {
+				if r := c.ReqL[len(c.ReqL)-1]; r.Step == s.Step && (r.Action == "subscribe" || r.Action == "get") && r.Valid {
+					s.quietRoot = r
+				}
+			}
+		}
+	}
 	if !ok {
 		s.Stats["skipped_decisions"]++
 	}
